@@ -30,7 +30,7 @@ func schemaGo(s any) *jsonschema.Schema {
 	}
 	ip := func(v any) *int { i := abs.Int(v); return &i }
 	seqS := func(v any) []*jsonschema.Schema {
-		out := []*jsonschema.Schema{}
+		out := make([]*jsonschema.Schema, 0, len(abs.Seq(v))+3) // spare capacity: in-place inserts/appends by the callee would show
 		for _, e := range abs.Seq(v) {
 			out = append(out, schemaGo(e))
 		}
@@ -44,7 +44,7 @@ func schemaGo(s any) *jsonschema.Schema {
 		return out
 	}
 	names := func(v any) []string {
-		out := []string{}
+		out := make([]string, 0, len(abs.Seq(v))+3)
 		for _, e := range abs.Seq(v) {
 			out = append(out, abs.Str(e.(string)))
 		}
@@ -58,7 +58,7 @@ func schemaGo(s any) *jsonschema.Schema {
 		return out
 	}
 	vals := func(v any) []any {
-		out := []any{}
+		out := make([]any, 0, len(abs.Seq(v))+3)
 		for _, e := range abs.Seq(v) {
 			out = append(out, abs.ValueGo(e))
 		}
@@ -69,7 +69,7 @@ func schemaGo(s any) *jsonschema.Schema {
 		case "type":
 			out.Type = v.(string)
 		case "types":
-			out.Types = []string{}
+			out.Types = make([]string, 0, len(abs.Seq(v))+3)
 			for _, e := range abs.Seq(v) {
 				out.Types = append(out.Types, e.(string))
 			}
